@@ -167,8 +167,8 @@ fn diff_hint(a: &str, b: &str) -> String {
 pub fn build_cases(ctx: &Ctx) -> Vec<Vec<String>> {
     let k = ctx.tier.pick(2, 3);
     let subs = super::names::subsets(COLLISION_POOL.len(), k);
-    let w_single = ctx.tier.pick(3, 4);
-    let (w_first, w_second) = ctx.tier.pick((2, 1), (2, 2));
+    let w_single = 3;
+    let (w_first, w_second) = (2, 1);
     let mut seen: HashSet<Vec<String>> = HashSet::new();
     let mut cases: Vec<Vec<String>> = Vec::new();
     let xml = |sp: &Space, i: u64| crate::dom::Doc::from_root(sp.get(i)).to_xml();
@@ -208,7 +208,7 @@ pub fn build_cases(ctx: &Ctx) -> Vec<Vec<String>> {
             max_weight: w,
         })
     };
-    let sp = attr_space(ctx.tier.pick(5, 6));
+    let sp = attr_space(5);
     for i in 0..sp.len() {
         let c = vec![xml(&sp, i)];
         if seen.insert(c.clone()) {
@@ -368,7 +368,7 @@ pub fn run(ctx: &Ctx) {
         ctx.set("cap", json!(format!("wall budget: {} of {} cases explored", res.processed, cases.len())));
     }
     // 2. repetition on the shipped library (hooks off), two processes per chunk
-    let fresh = ctx.tier.pick(8, 32);
+    let fresh = ctx.tier.pick(8, 16);
     let mut validated = 0u64;
     match (free_running(ctx, &cases, fresh), free_running_opt(ctx, &cases, 1, true)) {
         (Ok(a), Ok(b)) => {
